@@ -26,7 +26,9 @@ NUM_CALLS = {"int_value", "num_value", "float_value", "uint_value", "safe_int", 
 TYPED_CALLS = {"str_value", "literal_name", "keyword_name", "decode_text", "get_data", "get_rawdata", "len", "isinstance", "bool", "str", "repr", "bytes", "id", "type", "safe_rgb", "safe_cmyk", "safe_matrix", "safe_rect", "safe_rect_list", "enc", "make_compat_str"}
 
 DICT_ATTRS = {"attrs", "catalog", "param", "cidsysteminfo", "_obj", "trailer", "cf"}
-RAW_ATTRS = {"resources", "annots", "beads", "lastmod", "contents", "colorspace", "srcsize", "imagemask", "bits", "nums", "kids", "limits"}
+RAW_ATTRS = {"resources", "annots", "beads", "lastmod", "contents", "srcsize", "imagemask", "bits", "nums", "kids", "limits"}
+# LTImage.colorspace: LTImage.__init__ wraps a non-list value into a list, so it is always a list (of unchecked values)
+LIST_ATTRS = {"colorspace"}
 # (class name anywhere in the MRO, attribute) -> kind of self.<attribute>
 CLASS_ATTR_KIND = {
     ("CCITTG4Parser", "width"): "RAW",  # /Columns of the filter parameters, passed on unchecked
@@ -38,6 +40,10 @@ CLASS_ATTR_KIND = {
 CLASS_ATTR_ELEM = {
     ("PDFXRefStream", "ranges"): ("RAW", "RAW"),  # pairs cut out of /Index, unchecked
 }
+
+
+# modules whose `Any`/`object` parameters carry the module's own data (ccitt: leaves of the code tries, bits), not document values
+INTERNAL_ANY_MODULES = {"pdfminer.ccitt", "pdfminer.arcfour", "pdfminer.jbig2"}
 
 
 def _ann_kind(ann: Optional[ast.AST]) -> Optional[str]:
@@ -66,6 +72,8 @@ class DocTaint:
             a = node.args  # type: ignore[attr-defined]
             for x in a.posonlyargs + a.args + a.kwonlyargs:
                 k = _ann_kind(x.annotation)
+                if k == "RAW" and f.module.name in INTERNAL_ANY_MODULES:
+                    continue
                 if k and x.arg not in ("self", "cls"):
                     self.vars[x.arg] = k
         if f.cls is not None and f.cls.name == "PDFPageInterpreter" and f.name.startswith("do_") and hasattr(node, "args"):
@@ -139,6 +147,8 @@ class DocTaint:
                 return self.elem_kind(it.args[0])
             if short in ("popall", "pop") and d.startswith("self."):
                 return (None, "RAW")
+            if short == "get_filters":
+                return ("RAW", "RAW")
             k = self.kind(it)
             if k in ("LIST", "RAW"):
                 return "RAW"
@@ -150,6 +160,8 @@ class DocTaint:
                 if (cn, it.attr) in CLASS_ATTR_ELEM:
                     return CLASS_ATTR_ELEM[(cn, it.attr)]
         k = self.kind(it)
+        if k == "FPAIRS":
+            return ("RAW", "RAW")
         if k in ("LIST", "RAW", "DICT"):
             return "RAW" if k != "DICT" else None
         if k == "PAIRS":
@@ -220,6 +232,8 @@ class DocTaint:
                 return "STREAM"
             if short in RAW_CALLS:
                 return "RAW"
+            if short == "get_filters":
+                return "FPAIRS"  # list of (filter, parameters) pairs, both resolved but unchecked document values
             if short in TYPED_CALLS:
                 return None
             if short == "cast" and len(e.args) == 2:
@@ -249,6 +263,10 @@ class DocTaint:
                 return "LIST" if isinstance(e.slice, ast.Slice) else "RAW"
             if k == "PAIRS":
                 return "PAIRS" if isinstance(e.slice, ast.Slice) else None
+            if k == "FPAIRS":
+                return "FPAIRS" if isinstance(e.slice, ast.Slice) else "TUPLE2"
+            if k == "TUPLE2":
+                return "RAW"  # zip() made the pairs: [0] and [1] exist
             return None
         if isinstance(e, ast.Attribute):
             if isinstance(e.value, ast.Name) and e.value.id == "self":
@@ -260,6 +278,8 @@ class DocTaint:
                     return "DICT"
                 if e.attr in RAW_ATTRS:
                     return "RAW"
+                if e.attr in LIST_ATTRS:
+                    return "LIST"
             return None
         if isinstance(e, ast.BinOp):
             ks = {self.kind(e.left), self.kind(e.right)}
